@@ -285,9 +285,9 @@ def _corr(ctx, ft, pr, config):
     lines, todo = [], []
 
     # ---- FFT route: energy, inverses, pad
-    cases = [gen_fft(ctx.rng, s) for _ in range(ctx.scale(2, 20)) for s in shapes]
+    cases = [gen_fft(ctx.rng, s) for _ in range(ctx.scale(2, 14)) for s in shapes]
     cases += [gen_fft(ctx.rng, (int(ctx.rng.integers(10, 25)), int(ctx.rng.integers(10, 18))), big=True)
-              for _ in range(ctx.scale(12, 200))]
+              for _ in range(ctx.scale(12, 120))]
     for c in cases:
         m, n = c['shape']
         ctx.case('fft_energy', c, nontrivial=not (m == n == 1),
@@ -305,7 +305,7 @@ def _corr(ctx, ft, pr, config):
 
     # ---- band-complete round trips
     pairs = band_pairs(9, ctx.scale(14, 24))
-    bcases = [gen_band(ctx.rng, pairs) for _ in range(ctx.scale(250, 5000))]
+    bcases = [gen_band(ctx.rng, pairs) for _ in range(ctx.scale(250, 3000))]
     for c in bcases:
         m, n = c['shape']
         M, N = c['samples']
@@ -321,7 +321,7 @@ def _corr(ctx, ft, pr, config):
         q = f'{C.f2w(c["Q"][0])} {C.f2w(c["Q"][1])} {C.f2w(c["shift"][0])} {C.f2w(c["shift"][1])}'
         K1, L1 = ft.next_fast_len(m + M - 1), ft.next_fast_len(n + N - 1)
         cost = m * n * M * N + (K1 * L1 * (K1 + L1) if K1 * L1 * (K1 + L1) <= 5000 else 0)
-        if cost > ctx.scale(6000, 20000) and ctx.rng.random() < 0.8:
+        if cost > ctx.scale(6000, 12000) and ctx.rng.random() < 0.8:
             continue          # the model side is an interpreted O(n^4) double sum: run it on the smaller cases and a sample of the rest
         lines.append(f'rtmdft {m} {n} {M} {N} {q} {arr2w(f)}')
         lines.append(f'dftband {m} {n} {M} {N} {q} {arr2w(f)}')
@@ -332,8 +332,8 @@ def _corr(ctx, ft, pr, config):
             todo.append(('band_nocz', c, ex, (M, N), len(lines) - 2))
 
     # ---- free space
-    acases = [gen_asp(ctx.rng, s) for _ in range(ctx.scale(2, 24)) for s in shapes]
-    acases += [gen_asp(ctx.rng, (int(ctx.rng.integers(10, 25)), int(ctx.rng.integers(10, 18)))) for _ in range(ctx.scale(10, 200))]
+    acases = [gen_asp(ctx.rng, s) for _ in range(ctx.scale(2, 14)) for s in shapes]
+    acases += [gen_asp(ctx.rng, (int(ctx.rng.integers(10, 25)), int(ctx.rng.integers(10, 18)))) for _ in range(ctx.scale(10, 120))]
     for c in acases:
         m, n = c['shape']
         ctx.case('free_space', c, nontrivial=not (m == n == 1),
